@@ -12,7 +12,7 @@ Full(Cs) ==
        {Op("SSTORE", "-", k, v, 0) : k \in {"0", "1"}, v \in {"0", "1", "acc", "w1", "w2"}}
   \cup {Op("SLOAD", "-", k, "-", 0) : k \in {"0", "1"}}
   \cup {Op("SETACC", "-", "-", v, 0) : v \in {"0", "1", "2"}}
-  \cup Plain({"LOG", "CALLER", "ADDRESS", "CALLVALUE", "CDLOAD", "RDCOPY", "RETURN", "REVERT", "INVALID", "BURN"})
+  \cup Plain({"LOG", "CALLER", "ADDRESS", "CALLVALUE", "CDLOAD", "RDCOPY", "RETURN", "REVERT", "INVALID", "BURN", "HOP"})
   \cup {Op("CALL", t, "-", "-", val) : t \in Cs \cup {"S", "N", "PFE"} \cup Precompiles, val \in {0, 1}}
   \cup {Op("CALLCODE", t, "-", "-", val) : t \in Cs \cup {"N", "P2", "P6", "PFE"}, val \in {0, 1}}
   \cup {Op("DELEGATECALL", t, "-", "-", 0) : t \in Cs \cup {"N", "P4", "P8", "PFE"}}
@@ -52,6 +52,12 @@ Inspect ==
         Op("EXTCODEHASH", "P2", "0", "-", 0), Op("EXTCODEHASH", "N", "1", "-", 0), Op("EXTCODEHASH", "B", "0", "-", 0),
         Op("EXTCODEHASH", "S", "1", "-", 0), Op("EXTCODEHASH", "N", "-", "-", 0)}
   \cup Plain({"RETURN", "REVERT"})
+
+\* jumps inside caller and callee frames of all four call kinds, both orders of who jumps first
+Jump ==
+       {Op("CALLCODE", "B", "-", "-", 0), Op("DELEGATECALL", "B", "-", "-", 0), Op("CALL", "B", "-", "-", 0), Op("STATICCALL", "B", "-", "-", 0),
+        Op("CALLCODE", "A", "-", "-", 0), Op("SSTORE", "-", "0", "1", 0), Op("SETACC", "-", "-", "1", 0)}
+  \cup Plain({"HOP", "LOG", "RETURN", "REVERT"})
 
 \* recursion into the depth limit (Entry = "tramp")
 Deep ==
